@@ -58,7 +58,7 @@ _W = os.environ.get("VERIF_C10_WIPE_ARENAS")  # arenas that keep a warm cargo ta
 TIERS = {
     "quick": {"seeds": list(range(4)), "threads": [1, 16], "hist_len": 2, "hist_len_nowipe": 2, "wipe_arenas": int(_W or 2), "arenas": int(_NA or 8),
               "budget_s": None},
-    "thorough": {"seeds": list(range(32)), "threads": [1, 16], "hist_len": 3, "hist_len_nowipe": 4, "wipe_arenas": int(_W or 2), "arenas": int(_NA or 12),
+    "thorough": {"seeds": list(range(32)), "threads": [1, 16], "hist_len": 3, "hist_len_nowipe": 4, "wipe_arenas": int(_W or 4), "arenas": int(_NA or 12),
                  "budget_s": float(os.environ.get("VERIF_C10_BUDGET_S", "1000"))},
 }
 NO_RUN_OPS = ("wipe", "rmout")  # harness actions: no pavexc process
@@ -948,6 +948,8 @@ def _observe(tier, cfg):
         L.log(f"c10: histories of length {n} over {len(alphabet)} ops: {len(recs)}/{len(cases)} in {time.time() - t0:.1f}s")
     for a in arenas:
         a.drop_home()  # every case restores the cache from the snapshot: nothing to keep
+        if a.k >= TIERS["quick"]["wipe_arenas"]:
+            a.drop_target()  # the thorough tier's extra target dirs are transient (copied again from arena 0 next time)
     return {"family": FAM, "tier": tier, "plugin_sha": plugin_sha(), "specs": specs, "canon": canon, "notes": notes,
             "selftest": st, "records": records, "batches": batches, "counters": dict(COUNTERS),
             "total_wall_s": round(time.time() - t_start, 1)}
